@@ -13,6 +13,7 @@ import (
 	"encoding/json"
 	"fmt"
 	"math/big"
+	"os"
 	"strconv"
 
 	"com.tuntun.rangers/node/src/common"
@@ -58,6 +59,12 @@ func (s *searcher) report(key, desc string, c chainCfg, height uint64, tx *types
 	}
 	s.seen[key] = true
 	line := "vt " + strconv.FormatUint(height, 10) + " " + c.tokens() + " " + txTokens(tx)
+	defer func() {
+		// print the violation the moment it is found (a time-boxed run that is cut short keeps it)
+		b, _ := json.Marshal(s.viols[len(s.viols)-1])
+		fmt.Println("VIOL " + string(b))
+		os.Stdout.Sync()
+	}()
 	s.viols = append(s.viols, violation{Key: key, Desc: desc, Replay: map[string]string{
 		"op": line, "how": "harness/bin/c07 mode=replay ops=/dev/null obs=/dev/null line='<op>'  (prints IMPL <verdict>)",
 		"tx": fmt.Sprintf("Source=%q Target=%q Type=%d Nonce=%d ChainId=%q Data=%q ExtraData=%q Hash=%s", tx.Source, tx.Target, tx.Type, tx.Nonce, tx.ChainId, tx.Data, tx.ExtraData, tx.Hash.String())}})
@@ -99,22 +106,37 @@ func (s *searcher) authentic(c chainCfg, height uint64, tx *types.Transaction, c
 	v, r, sv := et.RawSignatureValues()
 	lo := new(big.Int).Add(new(big.Int).Mul(chain, big.NewInt(2)), big.NewInt(35))
 	d := new(big.Int).Sub(v, lo)
+	wantChain := chain.String()
+	var pre []byte
 	if !(d.Sign() >= 0 && d.Cmp(big.NewInt(1)) <= 0) {
 		if v.Cmp(big.NewInt(27)) == 0 || v.Cmp(big.NewInt(28)) == 0 {
+			// the recorded class is exactly "v = 27/28 admitted"; everything else about such a
+			// transaction is still checked below (Homestead signing hash, declared chain id "0")
 			s.report("eth-unprotected-accepted", "accepted although the payload is a pre-EIP-155 (v=27/28) signature carrying no chain id: replayable on every chain", c, height, tx)
+			d = new(big.Int).Sub(v, big.NewInt(27))
+			wantChain = "0"
+			pre, _ = rlp.EncodeToBytes([]interface{}{et.Nonce(), et.GasPrice(), et.Gas(), et.To(), et.Value(), et.Data()})
 		} else {
 			s.report("eth-other-chain-accepted", "accepted although v does not encode this chain's id", c, height, tx)
+			return
 		}
+	} else {
+		pre, _ = rlp.EncodeToBytes([]interface{}{et.Nonce(), et.GasPrice(), et.Gas(), et.To(), et.Value(), et.Data(), chain, uint(0), uint(0)})
+	}
+	if sv.Cmp(secpHalfN) > 0 || r.Sign() == 0 || sv.Sign() == 0 || r.Cmp(secpNConst()) >= 0 {
+		s.report("eth-signature-out-of-range-accepted", "accepted although r/s are out of range or s is high", c, height, tx)
 		return
 	}
-	pre, _ := rlp.EncodeToBytes([]interface{}{et.Nonce(), et.GasPrice(), et.Gas(), et.To(), et.Value(), et.Data(), chain, uint(0), uint(0)})
 	sig := append(append(pad32(r.Bytes()), pad32(sv.Bytes())...), byte(d.Uint64()))
-	pub, err := crypto.Ecrecover(crypto.Keccak256(pre), sig)
+	pub, err := crypto.Ecrecover(refKeccak(pre), sig)
 	if err != nil {
 		s.report("eth-unrecoverable-accepted", "accepted although the signature does not recover", c, height, tx)
 		return
 	}
-	addr := "0x" + hx.Hex(crypto.Keccak256(pub[1:])[12:])
+	if ok, _ := curveHolds(pub, refKeccak(pre), r, sv); !ok {
+		s.report("eth-recovered-key-does-not-verify", "accepted, but the recovered key does not satisfy the ECDSA equation", c, height, tx)
+	}
+	addr := "0x" + hx.Hex(refKeccak(pub[1:])[12:])
 	if tx.Source != addr {
 		s.report("eth-field-mismatch-accepted:Source", "declared sender differs from recovered signer "+addr, c, height, tx)
 	}
@@ -128,13 +150,13 @@ func (s *searcher) authentic(c chainCfg, height uint64, tx *types.Transaction, c
 	if tx.Nonce != et.Nonce() {
 		s.report("eth-field-mismatch-accepted:Nonce", "declared nonce differs from payload", c, height, tx)
 	}
-	if tx.ChainId != chain.String() {
+	if tx.ChainId != wantChain {
 		s.report("eth-field-mismatch-accepted:ChainId", "declared chain id differs from the chain's", c, height, tx)
 	}
 	if tx.Data != expectedData(et) {
 		s.report("eth-field-mismatch-accepted:Data", "declared value/gas/data differ from payload: want "+expectedData(et), c, height, tx)
 	}
-	if bytes.Equal(re, enc) && !bytes.Equal(tx.Hash.Bytes(), crypto.Keccak256(enc)) {
+	if bytes.Equal(re, enc) && !bytes.Equal(tx.Hash.Bytes(), refKeccak(enc)) {
 		s.report("eth-field-mismatch-accepted:Hash", "declared hash is not Keccak of the payload", c, height, tx)
 	}
 }
@@ -290,10 +312,8 @@ func search(a map[string]string, pool service.TransactionPool) {
 		if err != nil {
 			panic(err)
 		}
-		wtx, enc, err := wrap(et, eth_tx.NewEIP155Signer(chain))
-		if err != nil {
-			panic(err)
-		}
+		et = specV(et, chain)
+		wtx, enc := independentWrap(et, k, chain)
 		if !s.accept(c, height, wtx) {
 			s.report("honest-rejected:eth", "honestly signed EIP-155 transaction rejected", c, height, wtx)
 			continue
@@ -360,6 +380,17 @@ func search(a map[string]string, pool service.TransactionPool) {
 				s.authentic(c, height, otx, chain)
 			}
 		}
+	}
+	for class, w := range refDisagree {
+		key := "reference-disagrees:" + class
+		s.count[key]++
+		v := violation{Key: key, Desc: "the code under test disagrees with an independent reference (" + class + "): " + w, Replay: map[string]string{"witness": w}}
+		s.viols = append(s.viols, v)
+		b, _ := json.Marshal(v)
+		fmt.Println("VIOL " + string(b))
+	}
+	if signTxChain0Quirk > 0 {
+		s.infos["SignTx(EIP155Signer(0))-keeps-v-27/28"] = signTxChain0Quirk
 	}
 	res := map[string]interface{}{"evaluations": s.evals, "distinct_nontrivial": distinct, "violations": s.viols,
 		"violation_counts": s.count, "info": s.infos}
